@@ -16,9 +16,11 @@ import (
 	chain "github.com/comdex-official/comdex/app"
 	auctionsV2types "github.com/comdex-official/comdex/x/auctionsV2/types"
 	lendtypes "github.com/comdex-official/comdex/x/lend/types"
+	liqv2types "github.com/comdex-official/comdex/x/liquidationsV2/types"
 	"github.com/comdex-official/comdex/x/liquidity"
 	liqtypes "github.com/comdex-official/comdex/x/liquidity/types"
 	lockertypes "github.com/comdex-official/comdex/x/locker/types"
+	rewardstypes "github.com/comdex-official/comdex/x/rewards/types"
 	vaulttypes "github.com/comdex-official/comdex/x/vault/types"
 )
 
@@ -210,6 +212,21 @@ func c20WorldSwap(t *testing.T, g *rng) *c20Rich {
 			m, _ := a.VaultKeeper.GetUserAppExtendedPairMappingData(ctx, user(21).String(), fx.appV, fx.extPair)
 			return vaulttypes.NewMsgDepositRequest(user(21), fx.appV, fx.extPair, m.VaultId, sdk.NewInt(1000000))
 		})
+		// a new external reward programme for lockers / vaults: the id each chain hands out and how many
+		// programmes exist afterwards (the id counters, rewards prefixes 21 / 22, are not exported)
+		fund(t, a, tw.orig, user(81), sdk.NewCoins(sdk.NewCoin("uharbor", sdk.NewInt(100000000)), sdk.NewCoin("ucmdx", sdk.NewInt(100000000))))
+		fund(t, a, tw.reimp, user(81), sdk.NewCoins(sdk.NewCoin("uharbor", sdk.NewInt(100000000)), sdk.NewCoin("ucmdx", sdk.NewInt(100000000))))
+		tw.msg("rewards.ext-locker-new", "rewards", func(ctx sdk.Context) sdk.Msg {
+			return rewardstypes.NewMsgActivateExternalRewardsLockers(fx.appH, fx.asset["ucmst"], sdk.NewCoin("uharbor", sdk.NewInt(3000000)), 2, 3600, user(81))
+		})
+		tw.msg("rewards.ext-vault-new", "rewards", func(ctx sdk.Context) sdk.Msg {
+			return rewardstypes.NewMsgActivateExternalRewardsVault(fx.appV, fx.extPair, sdk.NewCoin("ucmdx", sdk.NewInt(2000000)), 2, 3600, user(81))
+		})
+		tw.tr.p("# external reward programmes after a new one of each kind: lockers %d/%d (id counter %d/%d), vaults %d/%d (id counter %d/%d)",
+			len(a.Rewardskeeper.GetExternalRewardsLockers(tw.orig)), len(a.Rewardskeeper.GetExternalRewardsLockers(tw.reimp)),
+			a.Rewardskeeper.GetExternalRewardsLockersID(tw.orig), a.Rewardskeeper.GetExternalRewardsLockersID(tw.reimp),
+			len(a.Rewardskeeper.GetExternalRewardVaults(tw.orig)), len(a.Rewardskeeper.GetExternalRewardVaults(tw.reimp)),
+			a.Rewardskeeper.GetExternalRewardsVaultID(tw.orig), a.Rewardskeeper.GetExternalRewardsVaultID(tw.reimp))
 		tw.end()
 		tw.begin(43201*time.Second, "rewards", "liquidity")
 		tw.end()
@@ -284,14 +301,20 @@ func c20WorldLend(t *testing.T, g *rng) *c20Rich {
 		}
 	}
 	aucs := a.NewaucKeeper.GetAuctions(c.ctx)
+	// the app's reserve funds (a bid that leaves too little collateral draws on them)
+	for j := 0; j < 4; j++ {
+		execMsg(a, c.ctx, liqv2types.NewMsgAppReserveFundsRequest(bidder.String(), w.app, w.assets[j], sdk.NewCoin(w.idDenom[w.assets[j]], sdk.NewInt(1000000000000))))
+	}
 	partial := 0
-	if len(aucs) > 0 && g.chance(75) {
-		au := aucs[0]
-		cl, err, _ := execMsg(a, c.ctx, auctionsV2types.NewMsgPlaceMarketBid(bidder.String(), au.AuctionId, sdk.NewCoin(au.DebtToken.Denom, au.DebtToken.Amount.QuoRaw(int64(3+g.intn(3))))))
-		if cl == "ok" {
-			partial = 1
-		} else {
-			c20Debug("lend partial bid: %s %v", cl, err)
+	if len(aucs) > 0 && g.chance(80) {
+		div := int64(4 + g.intn(8))
+		for _, au := range aucs {
+			cl, err, _ := execMsg(a, c.ctx, auctionsV2types.NewMsgPlaceMarketBid(bidder.String(), au.AuctionId, sdk.NewCoin(au.DebtToken.Denom, au.DebtToken.Amount.QuoRaw(div))))
+			if cl == "ok" {
+				partial++
+				break
+			}
+			c20Debug("lend partial bid on auction %d (%s for %s): %s %v", au.AuctionId, au.CollateralToken, au.DebtToken, cl, err)
 		}
 	}
 	c.skip(int64(6 + g.intn(600)))
@@ -396,6 +419,10 @@ func c20WorldFees(t *testing.T, g *rng) *c20Rich {
 		}
 	}
 	// the awkward end: auctions in mid-life, rewards accrued
+	for _, app := range apps {
+		w.c13SetEsm(app, false)
+		w.c13SetBreaker(app, false)
+	}
 	w.c13SetFlags(apps[0], assets[1], true, false, false)
 	w.c13FeeIn(apps[0], assets[1], sdk.NewInt(13000000+int64(g.intn(1000))))
 	w.c13V1Surplus(apps[0], assets[1])
